@@ -1,3 +1,26 @@
+/-
+C13 through the decoder (M14): the hypothesis "well typed" of `C13.no_internal_error` is DERIVED from the model of
+the request decoder (`KmipModel/Decode.lean`, transcribed from the `read()` methods of /repo and tied to them by
+`harness/lib/decode_check.py` on every run) instead of being assumed.
+
+  decode_wellTyped            every item of a decoded request satisfies `DecoderWT` = `C13.WellTyped` minus
+                              (a) the cryptography-oracle conjuncts and (b) non-negativity of a Cryptographic Length
+  wellTyped_of_decoder        DecoderWT ∧ LengthsNonneg ∧ OracleOk → C13.WellTyped
+  decoded_no_internal_error   decoded request + reachable store shape + admissible backend answer + no negative
+                              Cryptographic Length  ⇒  `processOperation` never ends in the internal-error outcome
+  decode_version              a decoded request with at least one item names one of the six KMIP versions (≥ 1.0)
+  decode_register_type        the secret of a decoded Register has the ANNOUNCED object type
+
+Hypotheses that REMAIN in `decoded_no_internal_error` and why:
+  * `StoreShape e.store`     — an invariant of every history (`C13.reachable_store_shape`), not a decoder matter;
+  * `OracleOk`               — the backend answers bytes of the requested size / a pair / a verdict / a KMIP error;
+  * `LengthsNonneg`          — a Cryptographic Length in the request is not negative.  The wire type is a signed
+                               Integer, so the decoder cannot promise it; the engine model stores lengths as naturals
+                               and `C13.ValOk` asks for it.  The correspondence counts the decoded items it excludes.
+Everything else `WellTyped` asks (value kinds by attribute name, structure values only under multivalued names, New
+Attribute under 2.0 / Attribute under 1.x for ModifyAttribute, at least one identifier for DeriveKey and one function
+for Query, version ≥ 1.0) is proved here from the decoder.
+-/
 import KmipModel.Lemmas.Decode
 import KmipModel.Props.C13
 namespace Kmip.C13Decode
@@ -31,5 +54,272 @@ def decoderWTB (c : Ctx) (e : Engine) (it : Item) : Bool :=
       (if e.version ≥ 20 then nw.isSome && attrOkDB c nw else a.isSome && attrOkDB c a) && attrOkDB c cu
   | .deleteAttribute _ _ _ cu _ => attrOkDB c cu
   | _ => true
+
+
+/-! ## What the decoder guarantees -/
+
+/-- `C13.WellTyped` without the oracle conjuncts and without `ValOk.nonneg` -/
+def DecoderWT (c : Ctx) (e : Engine) (it : Item) : Prop := PayloadOkD c e.version it.payload
+
+theorem realRules (ps : Policies) (now : Nat) : RealRules (C13.realCtx ps now) := rfl
+
+theorem headerBody_sat : Sat headerBody (fun hd => ∀ v, hd.version = some v → 10 ≤ v) := by
+  unfold headerBody
+  refine Sat.bind (Sat.triv _) (fun pv _ => ?_)
+  refine Sat.bind (Sat.triv _) (fun _ _ => ?_)
+  refine Sat.bind (Sat.triv _) (fun _ _ => ?_)
+  refine Sat.bind (Sat.triv _) (fun _ _ => ?_)
+  refine Sat.bind (Sat.triv _) (fun _ _ => ?_)
+  refine Sat.bind (Sat.triv _) (fun _ _ => ?_)
+  refine Sat.bind (Sat.triv _) (fun _ _ => ?_)
+  refine Sat.bind (Sat.triv _) (fun _ _ => ?_)
+  refine Sat.bind (Sat.triv _) (fun _ _ => ?_)
+  exact Sat.pure (fun v h => kmipVersion_ge pv v h)
+
+/-- the items of a decoded request were all read under the request's own (known) version -/
+theorem decode_items {c : Ctx} (hc : RealRules c) {dv : Nat} {t : TItem} {req : Request}
+    (h : decodeRequest dv t = .ok req) :
+    ∀ it ∈ req.items, 10 ≤ req.version ∧ PayloadOkD c req.version it.payload := by
+  unfold decodeRequest at h
+  split at h
+  · rename_i tg kids
+    split at h
+    · split at h
+      · rename_i hd rest
+        split at h
+        · split at h
+          · cases h
+          · rename_i hdr hhdr
+            have hv := inStruct_dsat headerBody_sat hd hdr hhdr
+            split at h
+            · cases h
+            · rename_i items hitems
+              have hit := takeItems_ok hc hdr.version hv _ _ _ hitems
+              split at h
+              · cases h
+              · cases h
+                intro it hmem
+                obtain ⟨v, hver, hge, hp⟩ := hit it hmem
+                simp only [hver, Option.getD_some]
+                exact ⟨hge, hp⟩
+        · cases h
+      · cases h
+    · cases h
+  · cases h
+
+/-- **decode_wellTyped**: every batch item of every request the decoder accepts is well typed (decoder part),
+in the context the server runs with and under the version the request itself announces. -/
+theorem decode_wellTyped (ps : Policies) (now : Nat) (store : Store) (id : Identity) {dv : Nat} {t : TItem}
+    {req : Request} (h : decodeRequest dv t = .ok req) :
+    ∀ it ∈ req.items, DecoderWT (C13.realCtx ps now) ⟨store, none, req.version, id⟩ it :=
+  fun it hit => (decode_items (realRules ps now) h it hit).2
+
+/-- the version hypothesis of `no_internal_error` comes from the header decode -/
+theorem decode_version {dv : Nat} {t : TItem} {req : Request} (h : decodeRequest dv t = .ok req)
+    (hne : req.items ≠ []) : 10 ≤ req.version := by
+  cases hi : req.items with
+  | nil => exact absurd hi hne
+  | cons it rest => exact (decode_items (realRules [] 0) h it (by rw [hi]; exact List.mem_cons_self)).1
+
+/-- an `.error` never yields a request (the decoder is a total function into `Except`) -/
+theorem decode_error_no_request {dv : Nat} {t : TItem} {e : DErr} (h : decodeRequest dv t = .error e) :
+    ∀ req, decodeRequest dv t ≠ .ok req := by
+  intro req hr; rw [h] at hr; cases hr
+
+/-- determinism at the byte level: a frame has one decoding -/
+theorem decodeFrame_deterministic {dv : Nat} {bs : Kmip.TTLV.Bytes} {r1 r2 : D Request}
+    (h1 : decodeFrame dv bs = r1) (h2 : decodeFrame dv bs = r2) : r1 = r2 := h1.symm.trans h2
+
+/-! ## From the decoder's guarantee to `C13.WellTyped` -/
+
+def AttrLenOk (a : TAttr) : Prop := a.name = "Cryptographic Length" → a.value.nonneg
+
+def TemplateLenOk : Option Template → Prop
+  | none => True
+  | some t => ∀ a ∈ t.attrs, AttrLenOk a
+
+/-- no Cryptographic Length carried by the payload is negative -/
+def LengthsNonneg : Payload → Prop
+  | .create _ t => TemplateLenOk t
+  | .createKeyPair cm pr pu => TemplateLenOk cm ∧ TemplateLenOk pr ∧ TemplateLenOk pu
+  | .register _ t _ => TemplateLenOk t
+  | .deriveKey _ _ t _ _ => TemplateLenOk t
+  | .locate _ _ as => ∀ a ∈ as, AttrLenOk a
+  | .setAttribute _ a => AttrLenOk a
+  | .modifyAttribute _ a cu nw =>
+      (∀ x, a = some x → AttrLenOk x) ∧ (∀ x, cu = some x → AttrLenOk x) ∧ (∀ x, nw = some x → AttrLenOk x)
+  | .deleteAttribute _ _ _ cu _ => ∀ x, cu = some x → AttrLenOk x
+  | _ => True
+
+/-- the cryptography backend answered admissibly for this item (the oracle conjuncts of `C13.WellTyped`) -/
+def OracleOk (c : Ctx) (e : Engine) (it : Item) : Prop :=
+  match it.payload with
+  | .create _ t => it.crypto.FitsCreate c e.version t
+  | .createKeyPair .. => it.crypto.IsPair
+  | .deriveKey .. => it.crypto.IsBytes
+  | .get _ _ _ w => w = none ∨ C13.Crypto.Token it.crypto
+  | .encrypt .. | .decrypt .. | .sign .. | .signatureVerify .. | .mac .. => C13.Crypto.Sane it.crypto
+  | _ => True
+
+theorem valOk_of {c : Ctx} {a : TAttr} (h : AttrOkD c a) (hl : AttrLenOk a) : ValOk c a.name a.value :=
+  ⟨h.kind, hl, h.struct⟩
+
+theorem templateOk_of {c : Ctx} {t : Option Template} (h : TemplateOkD c t) (hl : TemplateLenOk t) : TemplateOk? c t := by
+  cases t with
+  | none => trivial
+  | some t => intro a ha; exact valOk_of (h a ha) (hl a ha)
+
+/-- **DecoderWT ∧ oracle conditions (∧ no negative length) → WellTyped** -/
+theorem wellTyped_of_decoder {c : Ctx} {e : Engine} {it : Item}
+    (hd : DecoderWT c e it) (hl : LengthsNonneg it.payload) (ho : OracleOk c e it) : C13.WellTyped c e it := by
+  obtain ⟨pl, bid, cr⟩ := it
+  cases pl <;> simp only [DecoderWT, PayloadOkD, LengthsNonneg, OracleOk, C13.WellTyped] at hd hl ho ⊢
+  case create ot t => exact ⟨templateOk_of hd hl, ho⟩
+  case createKeyPair cm pr pu =>
+    exact ⟨templateOk_of hd.1 hl.1, templateOk_of hd.2.1 hl.2.1, templateOk_of hd.2.2 hl.2.2, ho⟩
+  case register ot t o => exact templateOk_of hd hl
+  case deriveKey ot us t dd dl => exact ⟨templateOk_of hd.1 hl, hd.2, ho⟩
+  case locate mx off as => intro a ha; exact valOk_of (hd a ha) (hl a ha)
+  case get u f cp w => exact ho
+  case query fs => exact hd
+  case encrypt u p => exact ho
+  case decrypt u p => exact ho
+  case sign u p => exact ho
+  case signatureVerify u p => exact ho
+  case mac u a d => exact ho
+  case setAttribute u a => exact valOk_of hd hl
+  case modifyAttribute u a cu nw =>
+    refine ⟨fun hv => ?_, fun hv => ?_, fun cur hcur => valOk_of (hd.2.2 cur hcur) (hl.2.1 cur hcur)⟩
+    · obtain ⟨n, hn, hok⟩ := hd.1 hv
+      exact ⟨n, hn, valOk_of hok (hl.2.2 n hn)⟩
+    · obtain ⟨x, hx, hok⟩ := hd.2.1 hv
+      exact ⟨x, hx, valOk_of hok (hl.1 x hx)⟩
+  case deleteAttribute u n i cu r => intro cur hcur; exact valOk_of (hd cur hcur) (hl cur hcur)
+
+/-- **C13 through the decoder**: take any request the decoder accepts, any of its items, any engine state whose
+store has the reachable shape and whose version is the request's, any admissible answer `cr` of the cryptography
+backend; if the item carries no negative Cryptographic Length, processing it never ends in the internal-error
+outcome (= the General Failure answer). -/
+theorem decoded_no_internal_error (ps : Policies) (now : Nat) (e : Engine) {dv : Nat} {t : TItem} {req : Request}
+    (h : decodeRequest dv t = .ok req) (it : Item) (hit : it ∈ req.items) (cr : Crypto)
+    (hev : e.version = req.version) (hs : StoreShape e.store)
+    (hl : LengthsNonneg it.payload) (ho : OracleOk (C13.realCtx ps now) e { it with crypto := cr }) :
+    NoInternal (processOperation (C13.realCtx ps now) e { it with crypto := cr }) := by
+  obtain ⟨hver, hp⟩ := decode_items (realRules ps now) h it hit
+  refine C13.no_internal_error ps now e _ hs (by rw [hev]; exact hver) ?_
+  refine wellTyped_of_decoder ?_ hl ho
+  show PayloadOkD _ e.version it.payload
+  rw [hev]; exact hp
+
+/-! ## The executable form used by the driver -/
+
+theorem valOkDB_sound {c : Ctx} {name : String} {v : AVal} (h : valOkDB c name v = true) : ValOkD c name v := by
+  simp only [valOkDB, Bool.and_eq_true] at h
+  obtain ⟨h1, h3⟩ := h
+  refine ⟨?_, ?_⟩
+  · intro k hk; rw [hk] at h1; simpa using h1
+  · intro hv r hr; subst hv; simp only [hr] at h3; exact h3
+
+/-! ## Non-vacuity: concrete requests -/
+
+def ascii (s : String) : Kmip.TTLV.Bytes := s.toList.map (fun c => UInt8.ofNat c.toNat)
+
+/-- a Create request (KMIP 1.2, AES, 128 bits) as a tree -/
+def createTree : TItem :=
+  .struct T.requestMessage [
+    .struct T.requestHeader [
+      .struct T.protocolVersion [.prim T.protocolVersionMajor (.integer 1), .prim T.protocolVersionMinor (.integer 2)],
+      .prim T.batchCount (.integer 1)],
+    .struct T.batchItem [
+      .prim T.operation_ (.enumeration 1),
+      .struct T.requestPayload [
+        .prim T.objectType (.enumeration 2),
+        .struct T.templateAttribute [
+          .struct T.attribute_ [.prim T.attributeName (.textString (ascii "Cryptographic Algorithm")),
+                                .prim T.attributeValue (.enumeration 3)],
+          .struct T.attribute_ [.prim T.attributeName (.textString (ascii "Cryptographic Length")),
+                                .prim T.attributeValue (.integer 128)]]]]]
+
+def isCreate128 : D Request → Bool
+  | .ok r =>
+    r.version == 12 && r.maxResponseSize.isNone &&
+    (match r.items with
+     | [⟨.create 2 (some t), none, .internal⟩] =>
+       t == ⟨0, [⟨"Cryptographic Algorithm", none, .enum 3⟩, ⟨"Cryptographic Length", none, .int 128⟩]⟩
+     | _ => false)
+  | .error _ => false
+
+/-- the tree decodes to the expected `Request` -/
+example : isCreate128 (decodeRequest 12 createTree) = true := by decide +kernel
+
+/-- the 240 bytes PyKMIP's own encoder writes for that request -/
+def createFrame : Kmip.TTLV.Bytes := [
+  0x42, 0x00, 0x78, 0x01, 0x00, 0x00, 0x00, 0xe8, 0x42, 0x00, 0x77, 0x01, 0x00, 0x00, 0x00, 0x38, 0x42, 0x00, 0x69, 0x01,
+  0x00, 0x00, 0x00, 0x20, 0x42, 0x00, 0x6a, 0x02, 0x00, 0x00, 0x00, 0x04, 0x00, 0x00, 0x00, 0x01, 0x00, 0x00, 0x00, 0x00,
+  0x42, 0x00, 0x6b, 0x02, 0x00, 0x00, 0x00, 0x04, 0x00, 0x00, 0x00, 0x02, 0x00, 0x00, 0x00, 0x00, 0x42, 0x00, 0x0d, 0x02,
+  0x00, 0x00, 0x00, 0x04, 0x00, 0x00, 0x00, 0x01, 0x00, 0x00, 0x00, 0x00, 0x42, 0x00, 0x0f, 0x01, 0x00, 0x00, 0x00, 0xa0,
+  0x42, 0x00, 0x5c, 0x05, 0x00, 0x00, 0x00, 0x04, 0x00, 0x00, 0x00, 0x01, 0x00, 0x00, 0x00, 0x00, 0x42, 0x00, 0x79, 0x01,
+  0x00, 0x00, 0x00, 0x88, 0x42, 0x00, 0x57, 0x05, 0x00, 0x00, 0x00, 0x04, 0x00, 0x00, 0x00, 0x02, 0x00, 0x00, 0x00, 0x00,
+  0x42, 0x00, 0x91, 0x01, 0x00, 0x00, 0x00, 0x70, 0x42, 0x00, 0x08, 0x01, 0x00, 0x00, 0x00, 0x30, 0x42, 0x00, 0x0a, 0x07,
+  0x00, 0x00, 0x00, 0x17, 0x43, 0x72, 0x79, 0x70, 0x74, 0x6f, 0x67, 0x72, 0x61, 0x70, 0x68, 0x69, 0x63, 0x20, 0x41, 0x6c,
+  0x67, 0x6f, 0x72, 0x69, 0x74, 0x68, 0x6d, 0x00, 0x42, 0x00, 0x0b, 0x05, 0x00, 0x00, 0x00, 0x04, 0x00, 0x00, 0x00, 0x03,
+  0x00, 0x00, 0x00, 0x00, 0x42, 0x00, 0x08, 0x01, 0x00, 0x00, 0x00, 0x30, 0x42, 0x00, 0x0a, 0x07, 0x00, 0x00, 0x00, 0x14,
+  0x43, 0x72, 0x79, 0x70, 0x74, 0x6f, 0x67, 0x72, 0x61, 0x70, 0x68, 0x69, 0x63, 0x20, 0x4c, 0x65, 0x6e, 0x67, 0x74, 0x68,
+  0x00, 0x00, 0x00, 0x00, 0x42, 0x00, 0x0b, 0x02, 0x00, 0x00, 0x00, 0x04, 0x00, 0x00, 0x00, 0x80, 0x00, 0x00, 0x00, 0x00]
+
+/-- … and so do the bytes (lenient byte reader + tree decoder) -/
+example : isCreate128 (decodeFrame 12 createFrame) = true := by decide +kernel
+
+/-- the hypotheses of `decoded_no_internal_error` are satisfiable on it: no negative length, and a 16-byte answer
+of the backend fits a 128-bit Create -/
+example : ∀ r, decodeRequest 12 createTree = .ok r → ∀ it ∈ r.items, LengthsNonneg it.payload := by
+  intro r h it hit
+  have hr : decodeRequest 12 createTree = .ok
+      { version := 12, timeStamp := none, async := none, batchOption := none, maxResponseSize := none,
+        items := [⟨.create 2 (some ⟨0, [⟨"Cryptographic Algorithm", none, .enum 3⟩,
+                                        ⟨"Cryptographic Length", none, .int 128⟩]⟩), none, .internal⟩] } := by
+    decide +kernel
+  rw [hr] at h
+  cases h
+  simp only [List.mem_singleton] at hit
+  subst hit
+  intro a ha
+  simp only [List.mem_cons, List.mem_singleton, List.not_mem_nil, or_false] at ha
+  rcases ha with rfl | rfl <;> intro hn <;> simp [AVal.nonneg] at *
+
+/-- the decoder is not trivially rejecting, nor trivially accepting: an attribute whose factory method raises
+NotImplementedError makes the request undecodable … -/
+example : decodeRequest 12 (.struct T.requestMessage [
+    .struct T.requestHeader [
+      .struct T.protocolVersion [.prim T.protocolVersionMajor (.integer 1), .prim T.protocolVersionMinor (.integer 2)],
+      .prim T.batchCount (.integer 1)],
+    .struct T.batchItem [
+      .prim T.operation_ (.enumeration 8),
+      .struct T.requestPayload [
+        .struct T.attribute_ [.prim T.attributeName (.textString (ascii "Link")),
+                              .prim T.attributeValue (.integer 1)]]]]) = .error (.unsupportedAttribute "Link") := by
+  decide +kernel
+
+/-- … a value of the wrong type under an attribute name is refused (this is where `ValOk.kind` comes from) … -/
+example : decodeRequest 12 (.struct T.requestMessage [
+    .struct T.requestHeader [
+      .struct T.protocolVersion [.prim T.protocolVersionMajor (.integer 1), .prim T.protocolVersionMinor (.integer 2)],
+      .prim T.batchCount (.integer 1)],
+    .struct T.batchItem [
+      .prim T.operation_ (.enumeration 8),
+      .struct T.requestPayload [
+        .struct T.attribute_ [.prim T.attributeName (.textString (ascii "Cryptographic Length")),
+                              .prim T.attributeValue (.textString (ascii "128"))]]]])
+      = .error (.malformed "Cryptographic Length") := by
+  decide +kernel
+
+/-- … and an item under a protocol version that is no member of KMIPVersion is refused, while the same header with
+an empty batch decodes (version 0 = unknown) -/
+example : (match decodeRequest 12 (.struct T.requestMessage [
+    .struct T.requestHeader [
+      .struct T.protocolVersion [.prim T.protocolVersionMajor (.integer 3), .prim T.protocolVersionMinor (.integer 0)],
+      .prim T.batchCount (.integer 0)]]) with
+    | .ok r => r.version == 0 && r.items.isEmpty
+    | .error _ => false) = true := by decide +kernel
 
 end Kmip.C13Decode
